@@ -159,7 +159,9 @@ func genIterWalk(r *rand.Rand, i int) Scenario {
 		sc.Ops = append(sc.Ops, Op{Op: "pl_open", Seg: seg, Field: "a", Term: B(term), Except: except, Pl: pl})
 		fl := r.Intn(8)
 		sc.Ops = append(sc.Ops, Op{Op: "it_open", Pl: pl, It: it, Freq: fl&1 != 0, Norm: fl&2 != 0, Locs: fl&4 != 0})
-		if !onehit && string(term) == "x" && len(in) > 0 && r.Intn(5) == 0 {
+		if !onehit && seg == 1 && string(term) == "x" && len(in) > 0 && r.Intn(5) == 0 {
+			// (only on the built segment: a merge may 1-hit encode a singleton list, and the 1-hit
+			// cursor has no actual bitmap to replace - outside the contract of ReplaceActual)
 			// ReplaceActual(B), B a subset of the postings, on a fresh general iterator
 			bs := []int{}
 			for _, d := range keys(in) {
